@@ -292,6 +292,27 @@ fn c07(thorough: bool) -> Report {
     let msgs: Vec<Vec<u8>> = corpus::messages(false).iter().map(encode).filter(|m| thorough || m.len() < 700).collect();
     let kinds = [io::ErrorKind::ConnectionReset, io::ErrorKind::ConnectionAborted, io::ErrorKind::TimedOut, io::ErrorKind::BrokenPipe,
                  io::ErrorKind::UnexpectedEof, io::ErrorKind::PermissionDenied, io::ErrorKind::Other, io::ErrorKind::WouldBlock];
+    // a value longer than any small-buffer threshold: cuts and faults inside it (sampled offsets)
+    {
+        let mut m = vec![1u8, 1, 0, 0, 0, 0, 0, 1, 0x01, 0x41, 0, 1, b't'];
+        m.extend_from_slice(&3000u16.to_be_bytes()); m.extend(std::iter::repeat(b'v').take(3000)); m.push(0x03);
+        for k in (0..m.len()).step_by(97).chain([14usize, 15, 16, 1030, 1040, 2000, 3014, 3015]) {
+            r.case(&m[..k]);
+            for (who, got) in [("blocking", run_blocking(&whole(&m[..k]))), ("async", run_async(&whole(&m[..k])))] {
+                match got { Outcome::Io(_) | Outcome::InvalidTag(_) | Outcome::InvalidCollection => {}
+                    other => { r.fail(format!("{who}: stream cut at byte {k} of {} (inside a 3000-byte value) gave {other:?}", m.len())); return r; } }
+            }
+            for kind in [io::ErrorKind::ConnectionReset, io::ErrorKind::TimedOut] {
+                for once in [false, true] {
+                    let mut s = whole(&m); s.fault = Some(kind); s.fault_at = Some(k); s.chunks = vec![512]; s.fault_once = once;
+                    let b = run_blocking(&s);
+                    if b != Outcome::Io(kind) { r.fail(format!("blocking: {} fault {kind:?} at byte {k} (inside a 3000-byte value) gave {b:?}", if once { "single" } else { "lasting" })); return r; }
+                    let a = run_async(&s);
+                    if a != Outcome::Io(kind) { r.fail(format!("async: {} fault {kind:?} at byte {k} (inside a 3000-byte value) gave {a:?}", if once { "single" } else { "lasting" })); return r; }
+                }
+            }
+        }
+    }
     for m in &msgs {
         if decode(m).is_err() { continue; }
         for k in 0..m.len() {
@@ -301,13 +322,16 @@ fn c07(thorough: bool) -> Report {
                     other => { r.fail(format!("{who}: stream cut at byte {k} of {} gave {other:?}: {}", m.len(), hex(m))); return r; } }
             }
             for kind in kinds {
-                let mut s = whole(m); s.fault = Some(kind); s.fault_at = Some(k); s.chunks = vec![4];
-                r.case(&m[..k]);
-                let b = run_blocking(&s);
-                if b != Outcome::Io(kind) { r.fail(format!("blocking: fault {kind:?} at byte {k} gave {b:?}: {}", hex(m))); return r; }
-                if kind != io::ErrorKind::WouldBlock {
-                    let a = run_async(&s);
-                    if a != Outcome::Io(kind) { r.fail(format!("async: fault {kind:?} at byte {k} gave {a:?}: {}", hex(m))); return r; }
+                for once in [false, true] {
+                    // a lasting fault (every later read fails too) and a single one (the source recovers afterwards)
+                    let mut s = whole(m); s.fault = Some(kind); s.fault_at = Some(k); s.chunks = vec![4]; s.fault_once = once;
+                    r.case(&m[..k]);
+                    let b = run_blocking(&s);
+                    if b != Outcome::Io(kind) { r.fail(format!("blocking: {} fault {kind:?} at byte {k} gave {b:?}: {}", if once { "single" } else { "lasting" }, hex(m))); return r; }
+                    if kind != io::ErrorKind::WouldBlock {
+                        let a = run_async(&s);
+                        if a != Outcome::Io(kind) { r.fail(format!("async: {} fault {kind:?} at byte {k} gave {a:?}: {}", if once { "single" } else { "lasting" }, hex(m))); return r; }
+                    }
                 }
             }
         }
@@ -440,7 +464,8 @@ fn c09(thorough: bool) -> Report {
     for _fresh in 0..(if thorough { 200 } else { 40 }) {
         for (what, mut req) in requests(&uri) {
             // further additions in varying order
-            let adds = [("zz-last", 1), ("aa-first", 2), ("job-uri-x", 3), ("requesting-user-name2", 4), ("job-uri", 5), ("job-id", 6)];
+            let adds = [("zz-last", 1), ("aa-first", 2), ("job-uri-x", 3), ("requesting-user-name2", 4), ("job-uri", 5), ("job-id", 6),
+                        ("job-id-extra", 7), ("printer-uri-supported", 8), ("attributes-charset2", 9)];
             let k = r.cases % adds.len();
             for i in 0..adds.len() { let (n, v) = adds[(i + k) % adds.len()]; req.attributes_mut().add(DelimiterTag::OperationAttributes, IppAttribute::new(n, IppValue::Integer(v))); }
             let bytes = req.to_bytes().to_vec();
@@ -449,6 +474,11 @@ fn c09(thorough: bool) -> Report {
                 Some(names) => {
                     let uniq: HashSet<&String> = names.iter().collect();
                     if uniq.len() != names.len() { r.fail(format!("{what}: an attribute is written twice in the operation group: {names:?}")); return r; }
+                    // the operation group on the wire holds exactly the attributes of the first operation group, once each
+                    let have: HashSet<String> = req.attributes().groups_of(DelimiterTag::OperationAttributes).next()
+                        .map(|g| g.attributes().keys().cloned().collect()).unwrap_or_default();
+                    let got: HashSet<String> = names.iter().cloned().collect();
+                    if have != got { r.fail(format!("{what}: the operation group on the wire {names:?} is not the operation group of the message {have:?}")); return r; }
                     let ranks: Vec<u8> = names.iter().map(|n| rank(n)).collect();
                     let sorted = ranks.windows(2).all(|w| w[0] <= w[1]);
                     if !sorted || ranks.first() != Some(&0) || ranks.get(1) != Some(&1) {
@@ -495,10 +525,13 @@ fn c10(_thorough: bool) -> Report {
     let uri: Uri = "http://user:pw@host:631/printers/p?x=1".parse().unwrap();
     let canon = ipp::util::canonicalize_uri(&uri).to_string();
     let name = |s: &str| RVal::Text(0x42, s.into());
-    let users: [Option<&str>; 3] = [None, Some("alice"), Some("")];
+    // "any UTF-8 strings": surrounding and inner white space, upper case, non-ASCII, control characters, a long one
+    let long_user = "u".repeat(300);
+    let users: [Option<&str>; 8] = [None, Some("alice"), Some(""), Some("  padded user \t"), Some("MiXed Case"), Some("j\u{f6}rg \u{540d}\u{524d}"),
+                                    Some("line\nbreak\u{0}nul"), Some(&long_user)];
     let doc = b"%PDF-1.4 \x00\x01\x02 document".to_vec();
     for user in users {
-        for title in [None, Some("t\u{e9}st")] {
+        for title in [None, Some("t\u{e9}st"), Some(" Title With Spaces ")] {
             for n_extra in 0..3 {
                 // Print-Job through the builder: setters called twice replace, attributes accumulate (last wins per name)
                 let mut b = IppOperationBuilder::print_job(uri.clone(), IppPayload::new(std::io::Cursor::new(doc.clone())));
@@ -542,7 +575,8 @@ fn c10(_thorough: bool) -> Report {
         if check_req(&mut r, "Get-Jobs", b.build().into_ipp_request(), 0x000a, 0x0101, want, b"") { return r; }
     }
     // Get-Printer-Attributes: requested-attributes as keywords in the order given; accumulating setters keep everything
-    let calls: Vec<Vec<Vec<&str>>> = vec![vec![], vec![vec!["a"]], vec![vec!["b", "a"]], vec![vec!["x"], vec!["y", "z"]], vec![vec!["p", "q"], vec![], vec!["r"]]];
+    let calls: Vec<Vec<Vec<&str>>> = vec![vec![], vec![vec!["a"]], vec![vec!["b", "a"]], vec![vec!["x"], vec!["y", "z"]], vec![vec!["p", "q"], vec![], vec!["r"]],
+                                          vec![vec!["dup"], vec!["b", "dup", "a"]], vec![vec!["z", "y"], vec!["x"], vec!["Upper", " spaced "]]];
     for seq in calls {
         let mut b = IppOperationBuilder::get_printer_attributes(uri.clone());
         let mut all: Vec<&str> = vec![];
